@@ -215,6 +215,14 @@ def check(prop, tier):
         msg = "tlc_errors=%s unfinished=%s binding=%s design=%s" % (stats["tlc_errors"][:2], stats["unfinished"][:3], [(f["clause"], f["input"], f.get("rule")) for f in mach[:3]], design_bad[:2])
         common.machinery(msg)
     mine = [f for f in r["findings"] if f["property"] == prop]
+    if prop == "C19":
+        # crashes of the reporting / command-line layer are found by the check-report family
+        import chkfam
+
+        cr = chkfam.collect(tier)
+        if cr["stats"]["tlc_errors"] or cr["stats"]["machinery"]:
+            common.machinery("check/report family: %s %s" % (cr["stats"]["tlc_errors"][:2], cr["stats"]["machinery"][:1]))
+        mine += [f for f in cr["findings"] if f["property"] == prop]
     known_hits, new = F.split_known(mine, prop)
     rc = common.report(prop, known_hits, new, lambda f: F.write_replay(prop, f))
     design = [d for d in r["design"] if prop in d["props"]]
